@@ -13,12 +13,12 @@ CONSTANTS OutFile, Sample, ExactOnly, Late   \* ExactOnly: sample only crash-fre
 VARIABLES case, stage
 
 \* the generator's universe: the four bundles of the bounded model plus one larger bundle (six more files,
-\* twelve more keys) so that an index can have more than ten chunks (chunk names are not zero padded)
+\* eleven more keys - f8 is empty: its root is its only key) so that an index can have more than ten chunks (chunk names are not zero padded)
 GFiles == {"f1", "f2", "f3", "f4", "f5", "f6", "f7", "f8", "f9"}
 GRootOf == [f \in GFiles |-> IF f \in {"f1", "f2", "f3"} THEN MCRootOf[f]
                               ELSE CASE f = "f4" -> "r4" [] f = "f5" -> "r5" [] f = "f6" -> "r6" [] f = "f7" -> "r7" [] f = "f8" -> "r8" [] OTHER -> "r9"]
 GLeavesOf == [f \in GFiles |-> IF f \in {"f1", "f2", "f3"} THEN MCLeavesOf[f]
-                                ELSE CASE f = "f4" -> {"l4"} [] f = "f5" -> {"l5"} [] f = "f6" -> {"l6"} [] f = "f7" -> {"l7"} [] f = "f8" -> {"l8"} [] OTHER -> {"l9"}]
+                                ELSE CASE f = "f4" -> {"l4"} [] f = "f5" -> {"l5"} [] f = "f6" -> {"l6"} [] f = "f7" -> {"l7"} [] f = "f8" -> {} [] OTHER -> {"l9"}]   \* f8 is an empty file: a root blob and no leaf
 GBundleDefs == [b \in {"b1", "b2", "b3", "b4", "b5"} |->
                   IF b = "b5" THEN {"f4", "f5", "f6", "f7", "f8", "f9"} ELSE MCBundleDefs[b]]
 
